@@ -5,14 +5,24 @@ Import ListNotations.
 Open Scope list_scope.
 
 Definition attr_in_error (a : cattr) : bool :=
-  ckind_eqb (ca_kind a) CKUnknown || (needs_value (ca_kind a) && is_nil (ca_value a)).
+  ckind_eqb (ca_kind a) CKUnknown || (needs_value (ca_kind a) && is_nil (ca_value a))
+  || (ckind_eqb (ca_kind a) CKRouteOnly && negb (smem (ca_value a) supported_verbs)).
+
+Lemma verb_diags_error : forall i v, existsb is_error (verb_diags i v) = negb (smem v supported_verbs).
+Proof.
+  intros i v. unfold verb_diags. destruct (smem v supported_verbs); [reflexivity|].
+  destruct (smem v other_http_verbs); reflexivity.
+Qed.
 
 Lemma ctl_attr_error : forall seen i a, existsb is_error (ctl_attr seen i a) = attr_in_error a.
 Proof.
   intros seen i a. unfold ctl_attr, attr_in_error.
-  destruct (ca_kind a); cbn;
+  destruct (ca_kind a); cbn [crule_of cr_in_context cr_requires_value cr_allows_multiple cr_props ckind_eqb ckind_n
+                             needs_value Nat.eqb orb andb negb];
+    rewrite ?existsb_app, ?verb_diags_error;
     destruct (is_nil (ca_value a)); destruct (ca_props a); cbn; try reflexivity;
-    destruct (count_ckind _ _) as [|[|n]]; reflexivity.
+    try (destruct (count_ckind _ _) as [|[|n]]; cbn; try reflexivity);
+    try (destruct (smem (ca_value a) supported_verbs); reflexivity).
 Qed.
 
 Lemma ctl_go_error : forall attrs seen i,
